@@ -8,7 +8,7 @@ one copy."""
 import itertools
 import re
 
-from .. import core, outparse, probes
+from .. import core, hostile, outparse, probes
 
 ID = 'C02'
 RULE = ('cases = (abbreviation built from a written tree with repeaters, maxRepeat); enumerated: N in 1..6 x width 1..4 x base in {none,0,1,3,12} x '
@@ -177,7 +177,7 @@ class Mon:
     def __init__(self, ctx):
         import emmet
         self.ctx = ctx
-        self.expand = emmet.expand
+        self.expand = hostile.wrap(emmet.expand, ctx)
         self.guard_last = None
         self.depth_in = []
 
